@@ -5,8 +5,11 @@
 //   verify  refuses paths shorter than 2 or longer than 64 entries and otherwise accepts exactly when the value folded
 //           from the path along the bits of the index equals the given root (specification `fold`)
 //   lemma_prove_verify   the path returned by prove folds to the root: verify(root(), i, prove(i)) accepts (completeness)
-// Not decided here: that MerkleTree::new establishes well-formedness (build_merkle_nodes is unsafe pointer code: Kani,
-// bounded); batch openings (BTreeMap code: bounded stand-in); collision resistance is not a property of the code.
+//   build_merkle_nodes / MerkleTree::new   (session 5) return, for every power-of-two leaf count >= 2, exactly such a
+//           well-formed tree over the given leaves; new is Ok iff the count is >= 2 and a power of two. The raw-pointer
+//           reinterpretation of digest slices as pairs is modelled by two specified external functions (see below).
+// Not decided here: batch openings (BTreeMap code: bounded stand-in); the concurrent construction; collision resistance is
+// not a property of the code.
 // verify is proved for claimed indices below 2^(len-1) (an index beyond that overflows `index + 2^(len-1)` when len = 64).
 use vstd::prelude::*;
 use vstd::arithmetic::power2::*;
@@ -261,6 +264,109 @@ proof fn lemma_prove_verify(t: MerkleTree, index: int, p: Seq<D>)
     lemma_level(index + t.leaves.len(), d, d);
     lemma2_to64();
     assert(pow2(0) == 1);
+}
+
+// ---------------------------------------------------------------------------------------------------------------------
+// construction: build_merkle_nodes / MerkleTree::new establish the heap-ordered tree invariant `wf` for every size.
+// The source reinterprets `leaves` (and, while it is being filled, `nodes`) as slices of digest PAIRS through raw pointers
+// (`slice::from_raw_parts(.. as *const [H::Digest; 2], n)`). That reinterpretation is the one thing modelled here, stated
+// as the specification of two external functions: pairs_of(s, n)[i] == [s[2i], s[2i+1]], and pair_at(nodes, i) - the
+// source's `two_nodes[i]`, a view that aliases `nodes` and is read after earlier iterations have written to it - reads the
+// CURRENT contents [nodes[2i], nodes[2i+1]]. (Kani executes the real pointer code, bounded: 8 leaves.)
+impl D {
+    #[verifier::external_body]
+    pub fn default() -> (r: D) { unimplemented!() }
+}
+#[verifier::external_body]
+pub fn uninit_vector(n: usize) -> (r: Vec<D>) ensures r.len() == n { unimplemented!() }
+#[verifier::external_body]
+pub fn pairs_of(s: &[D], n: usize) -> (r: Vec<[D; 2]>)
+    requires 2 * n <= s.len()
+    ensures r.len() == n, forall|i: int| 0 <= i < n ==> (#[trigger] r@[i])[0] == s@[2 * i] && r@[i][1] == s@[2 * i + 1]
+{ unimplemented!() }
+#[verifier::external_body]
+pub fn pair_at(s: &Vec<D>, i: usize) -> (r: [D; 2])
+    requires 2 * i + 1 < s.len()
+    ensures r[0] == s@[2 * i as int], r[1] == s@[2 * i + 1]
+{ unimplemented!() }
+
+pub open spec fn is_pow2(x: int) -> bool { exists|d: nat| d < 64 && x == #[trigger] pow2(d) }
+pub assume_specification [usize::is_power_of_two] (x: usize) -> (r: bool)
+    ensures r == is_pow2(x as int);
+
+//@@ source crypto/src/merkle/mod.rs
+//@@ extract anchor="pub fn build_merkle_nodes<H: Hasher>(leaves: &[H::Digest]) -> Vec<H::Digest>"
+//@@ rewrite "unsafe { utils::uninit_vector::<H::Digest>(2 * n) }" => "uninit_vector(2 * n)"
+//@@ rewrite "H::Digest::default()" => "D::default()"
+//@@ rewrite "unsafe { slice::from_raw_parts(leaves.as_ptr() as *const [H::Digest; 2], n) }" => "pairs_of(leaves, n)"
+//@@ rewrite "let two_nodes = unsafe { slice::from_raw_parts(nodes.as_ptr() as *const [H::Digest; 2], n) };" => ""
+//@@ rewrite "&two_nodes[i]" => "&pair_at(&nodes, i)"
+//@@ rewrite "for (i, j) in (0..n).zip(n..nodes.len()) {" => "for i in 0..n { let j = n + i;"
+//@@ itername 2 it
+//@@ loop 1
+//@@|        invariant
+//@@|            n == leaves.len() / 2, nodes.len() == 2 * n, two_leaves.len() == n,
+//@@|            forall|t: int| 0 <= t < n ==> (#[trigger] two_leaves@[t])[0] == leaves@[2 * t] && two_leaves@[t][1] == leaves@[2 * t + 1],
+//@@|            forall|t: int| 0 <= t < i ==> #[trigger] nodes@[n + t] == merge_of(leaves@[2 * t], leaves@[2 * t + 1]),
+//@@ loop 2
+//@@|        invariant
+//@@|            n == leaves.len() / 2, nodes.len() == 2 * n, it.index@ <= n - 1 || n == 0,
+//@@|            forall|t: int| 0 <= t < n ==> #[trigger] nodes@[n + t] == merge_of(leaves@[2 * t], leaves@[2 * t + 1]),
+//@@|            forall|t: int| n - it.index@ <= t < n && 1 <= t ==> #[trigger] nodes@[t] == merge_of(nodes@[2 * t], nodes@[2 * t + 1]),
+pub fn build_merkle_nodes(leaves: &[D]) -> (r: Vec<D>)
+    requires leaves.len() >= 2, leaves.len() <= 0x4000_0000_0000_0000
+    ensures
+        r.len() == 2 * (leaves.len() / 2),
+        forall|t: int| 0 <= t < leaves.len() / 2 ==> #[trigger] r@[leaves.len() / 2 + t] == merge_of(leaves@[2 * t], leaves@[2 * t + 1]),
+        forall|t: int| 1 <= t < leaves.len() / 2 ==> #[trigger] r@[t] == merge_of(r@[2 * t], r@[2 * t + 1]),
+{
+    /*@@body*/
+}
+
+pub enum MerkleTreeError2 { TooFewLeaves(usize, usize), NumberOfLeavesNotPowerOfTwo(usize) }
+
+proof fn lemma_new_wf(t: MerkleTree, d: nat)
+    requires
+        d < 64, t.leaves.len() == pow2(d), t.leaves.len() >= 2, t.leaves.len() <= 0x4000_0000_0000_0000,
+        t.nodes.len() == 2 * (t.leaves.len() / 2),
+        forall|k: int| 0 <= k < t.leaves.len() / 2 ==> #[trigger] t.nodes@[t.leaves.len() / 2 + k] == merge_of(t.leaves@[2 * k], t.leaves@[2 * k + 1]),
+        forall|k: int| 1 <= k < t.leaves.len() / 2 ==> #[trigger] t.nodes@[k] == merge_of(t.nodes@[2 * k], t.nodes@[2 * k + 1]),
+    ensures wf(t)
+{
+    lemma2_to64(); lemma2_to64_rest();
+    assert(pow2(0) == 1);
+    assert(d >= 1);
+    if d >= 63 { if d > 63 { lemma_pow2_strictly_increases(63, d); } assert(false); }
+    lemma_pow2_unfold(d);
+    let big = t.leaves.len() as int;
+    let n = big / 2;
+    assert(big == 2 * n);
+    assert(dep_ok(t, d));
+    assert forall|i: int| 1 <= i < t.nodes.len() implies #[trigger] t_at(t, i) == merge_of(t_at(t, 2 * i), t_at(t, 2 * i + 1)) by {
+        if i < n {
+            assert(t.nodes@[i] == merge_of(t.nodes@[2 * i], t.nodes@[2 * i + 1]));
+        } else {
+            let k = i - n;
+            assert(t.nodes@[n + k] == merge_of(t.leaves@[2 * k], t.leaves@[2 * k + 1]));
+        }
+    }
+}
+
+impl MerkleTree {
+    //@@ source crypto/src/merkle/mod.rs
+    //@@ extract anchor="pub fn new(leaves: Vec<H::Digest>) -> Result<Self, MerkleTreeError>" within="impl<H: Hasher> MerkleTree<H>"
+    //@@ rewrite "build_merkle_nodes::<H>(" => "build_merkle_nodes("
+    //@@ rewrite "MerkleTreeError::" => "MerkleTreeError2::"
+    //@@ tailbind res
+    //@@|        proof { let d = choose|d: nat| d < 64 && leaves.len() == #[trigger] pow2(d); lemma_new_wf(MerkleTree { nodes, leaves }, d); }
+    pub fn new(leaves: Vec<D>) -> (r: Result<MerkleTree, MerkleTreeError2>)
+        requires leaves.len() <= 0x4000_0000_0000_0000
+        ensures
+            r is Ok <==> (leaves.len() >= 2 && is_pow2(leaves.len() as int)),
+            r is Ok ==> wf(r->Ok_0) && r->Ok_0.leaves@ == leaves@,
+    {
+        /*@@body*/
+    }
 }
 
 proof fn merklev_canary_must_fail(t: MerkleTree, index: int, p: Seq<D>)
